@@ -88,6 +88,40 @@ def check(run, model, tier):
     # acquire dominates the classification
     run.inst('PROTO.keep-lock-branch', get, 'acquire dominates classification', any(g.dominates(a, ctest) for a in acquires),
              'the lock is not held when the line is classified', node=ctest.ast, obligation=True)
+    # ---- the hand-over flag (which tells __set__ that this thread already holds the lock) is written only inside the critical section
+    from props.c27 import lock_nodes, held_states
+    st_ = cls.methods.get('__set__')
+    flag = None
+    if st_ is not None:
+        for n_ in walk_shallow(st_.node):
+            if isinstance(n_, ast.If):
+                i_, p_ = strip_not(n_.test)
+                d_ = dotted(i_)
+                if d_ and d_.startswith(st_.params[0] + '.'):
+                    flag = d_.split('.', 1)[1]
+    lockattr = None
+    for n_ in g.nodes:
+        if n_.kind in ('entry', 'exit', 'xexit', 'def'):
+            continue
+        for c_ in n_.calls():
+            if isinstance(c_.func, ast.Attribute) and c_.func.attr == 'acquire':
+                lockattr = (dotted(c_.func.value) or '').split('.')[-1]
+    if flag and lockattr:
+        selfn = get.params[0]
+        acq = set(lock_nodes(g, selfn, lockattr, 'acquire'))
+        rel = set(lock_nodes(g, selfn, lockattr, 'release'))
+        states = held_states(g, acq, rel, 0)
+        run.rule('PROTO.flag-in-section', 'the hand-over flag is written by __get__ only while the lock is held')
+        n_w = 0
+        for n_ in g.nodes:
+            if n_.kind == 'stmt' and isinstance(n_.ast, ast.Assign) and any(dotted(t_) == '%s.%s' % (selfn, flag) for t_ in n_.ast.targets):
+                n_w += 1
+                ok_ = bool(states[n_]) and min(states[n_]) >= 1
+                run.inst('PROTO.flag-in-section', get, 'write of %s: %s' % (flag, norm(n_.ast)), ok_,
+                         '' if ok_ else ('__get__ writes the hand-over flag %s before it holds the lock: a reader entering __get__ while another thread is between the read and the write '
+                                         'half of an augmented assignment resets that thread\'s flag; its __set__ then acquires the lock a second time and releases it once, so the '
+                                         'statement ends with the lock still held and every other thread blocks on the attribute' % flag), node=n_.ast, obligation=True)
+        run.floor('writes of the hand-over flag in __get__', n_w, 1)
     # ---- the regex table
     lits = regex_literals(classifier)
     run.floor('regex literals in the line classifier', len(lits), 1)
